@@ -281,16 +281,29 @@ def c16_r5(ctx):
     prog = ctx.prog
     tag = prog.method("qparser.default.QueryParser", "tag", inherited=False)
     ctx.saw(tag)
-    # the helper that wraps text[start:end] into a WordNode
-    helpers = [n.name for n in ast.walk(tag.node) if isinstance(n, ast.FunctionDef) and n is not tag.node and
-               any(norm.call_name(c) == "WordNode" for c in norm.calls_in(n))]
-    inter_calls = [c for c in norm.calls_in(tag.node) if norm.call_name(c) in helpers]
+    # untagged text is wrapped into WordNode(text[a:b]) -- directly, or through a local helper(a, b) that does it
+    helpers = {}
+    for n in ast.walk(tag.node):
+        if isinstance(n, ast.FunctionDef) and n is not tag.node and any(norm.call_name(c) == "WordNode" for c in norm.calls_in(n)):
+            helpers[n.name] = n
     TA = pm.Alpha(tag)
     TA.find(pm.stmts_of(tag.node), "prev = pos")
-    args = [TA.text(c) for c in inter_calls]
-    ctx.ob(tag, len(helpers) == 1 and any(TA.eq(c, "%s(prev, pos)" % helpers[0]) for c in inter_calls) and
-           any(TA.eq(c, "%s(prev, len(text))" % helpers[0]) for c in inter_calls),
-           "in-between text and trailing text are both turned into word nodes", detail=str(args))
+    spans = []
+    nested = set(id(x) for h in helpers.values() for x in ast.walk(h))
+    for c in norm.calls_in(tag.node, include_nested_defs=False):
+        if id(c) in nested:
+            continue
+        nm = norm.call_name(c)
+        if nm in helpers and len(c.args) == 2:
+            spans.append((norm.deep_canon(c.args[0], tag.node), norm.deep_canon(c.args[1], tag.node)))
+        elif nm == "WordNode" and c.args and isinstance(c.args[0], ast.Subscript) and isinstance(c.args[0].slice, ast.Slice) \
+                and norm.canon(c.args[0].value) == tag.params[1] and c.args[0].slice.lower is not None and c.args[0].slice.upper is not None:
+            spans.append((norm.deep_canon(c.args[0].slice.lower, tag.node), norm.deep_canon(c.args[0].slice.upper, tag.node)))
+    prevn = TA.name("prev") or "prev"
+    want_between = (prevn, "pos")
+    want_tail = (prevn, "len(%s)" % tag.params[1])
+    ctx.ob(tag, len(helpers) <= 1 and want_between in spans and want_tail in spans,
+           "in-between text and trailing text are both turned into word nodes", detail=str(spans))
     adv = any(isinstance(st, ast.AugAssign) and norm.canon(st.target) == "pos" and isinstance(st.op, ast.Add) and
               norm.canon(st.value) == "1" for st in ast.walk(tag.node))
     ctx.ob(tag, adv, "the cursor advances by one character when no tagger matches")
